@@ -762,14 +762,26 @@ func generatorRun(res *core.Result, r *rand.Rand, n int, prefix string) {
 			a[0] = 0xfd
 			a[1] = byte(r.IntN(256))
 			p, _ := netip.AddrFrom16(a).Prefix(bits)
-			// never ignore everything that is acceptable
-			covers := false
+			if len(acceptable) > 1 && r.IntN(3) == 0 {
+				// a wider range around one of the acceptable prefixes
+				ap := acceptable[r.IntN(len(acceptable))]
+				p, _ = ap.Addr().Prefix(max(9, ap.Bits()-1-r.IntN(3)))
+			}
+			// never ignore everything that is acceptable: an ignored range may swallow acceptable prefixes whole
+			// (a local interface prefix that is wider than a requested region) as long as one of them stays free
+			free := 0
 			for _, ap := range acceptable {
-				if p.Bits() <= ap.Bits() && p.Contains(ap.Addr()) {
-					covers = true
+				covered := false
+				for _, ig := range append(append([]netip.Prefix{}, ignore...), p) {
+					if ig.Bits() <= ap.Bits() && ig.Contains(ap.Addr()) {
+						covered = true
+					}
+				}
+				if !covered {
+					free++
 				}
 			}
-			if !covers {
+			if free > 0 {
 				ignore = append(ignore, p)
 			}
 		}
